@@ -1,9 +1,53 @@
 (* C16 — Entry points never panic, overflow or divide by zero (inside the stated domain).
-   [Panic site] is the model's outcome for every panicking operator / unwrap of the source; the correspondence run on the
-   extreme-value stream (catch_unwind around every entry-point call) ties the model's panic sites to the code's. *)
-From MW Require Import Base Wire Staking Treasury.
-From MW.Proofs Require Import NoPanic.
+   [Panic site] is the model's outcome for every panicking operator / unwrap / unchecked arithmetic of the source
+   (checked arithmetic that returns an error is [Err]); the correspondence run on the extreme-value stream, with
+   catch_unwind around every entry-point call, ties the model's panic sites to the code's.
+   Domain (NoPanic.v): dom_state — every total, batch amount, request and tracked transfer at most 10^27, exchange rate
+   within [10^-3, 10^3] (no rate when no LST is outstanding), ids and counters below 2^63, fewer than 2^32 tracked
+   transfers; dom_env — block time before the year 2262; dom_funds — attached coins at most 10^27; dom_call — the sender
+   of a stake carries the chain prefix, a reward keeps the rate inside the range, Resume totals are inside it, fewer than
+   2^32 selected ids. Configurations are unconstrained (every value validation accepts). *)
+From MW Require Import Base Wire Staking Treasury Migrate.
+From MW.Proofs Require Import Invariant Ledger NoPanic.
 Open Scope N_scope.
+
+(* --- staking --- *)
+Theorem C16_execute : forall va dv av s e i m,
+  I_batches s -> I_requests s -> dom_state s -> dom_env e -> dom_funds i -> dom_call s i m ->
+  is_panic (execute va dv av s e i m) = false.
+Proof. exact execute_no_panic. Qed.
+Print Assumptions C16_execute.
+
+Theorem C16_instantiate : forall va e i m, is_panic (instantiate va e i m) = false.
+Proof. exact instantiate_no_panic. Qed.
+Print Assumptions C16_instantiate.
+
+Theorem C16_query : forall s q, dom_state s -> is_panic (query s q) = false.
+Proof. exact query_no_panic. Qed.
+Print Assumptions C16_query.
+
+Theorem C16_reply_sudo : forall s, (forall id rr, is_panic (reply s id rr) = false) /\ (forall m, is_panic (sudo s m) = false).
+Proof. intros s. split; [intros; apply reply_np | intros; apply sudo_np]. Qed.
+Print Assumptions C16_reply_sudo.
+
+Theorem C16_migrate : forall va ms msg, is_panic (migrate va ms msg) = false.
+Proof. exact migrate_no_panic. Qed.
+Print Assumptions C16_migrate.
+
+(* the invariants assumed above hold in every state of every history; the domain contains the instantiated state *)
+Theorem C16_invariants_reachable : forall va dv av e0 i0 m0 s0 r0 cs,
+  instantiate va e0 i0 m0 = Ok (s0, r0) -> I_batches (after va dv av s0 cs) /\ I_requests (after va dv av s0 cs).
+Proof. exact reachable_invariants. Qed.
+Print Assumptions C16_invariants_reachable.
+
+Theorem C16_domain_inhabited : forall va e i m s r, instantiate va e i m = Ok (s, r) -> dom_state s.
+Proof. intros va e i m s r. exact (instantiate_in_domain va (fun _ _ _ => None) (fun _ => true) e i m s r). Qed.
+Print Assumptions C16_domain_inhabited.
+
+(* the rate computation is total on the whole stated range (no division by zero, no overflow) *)
+Theorem C16_rates_total : forall x, rate_dom (total_native x) (total_lst x) -> get_rates x <> None.
+Proof. intros x H. apply get_rates_safe. apply rate_dom_safe. exact H. Qed.
+Print Assumptions C16_rates_total.
 
 (* --- treasury: every message, every state, every sender --- *)
 Theorem C16_treasury_instantiate : forall av e sender m, is_panic (tinstantiate av e sender m) = false.
@@ -17,3 +61,7 @@ Print Assumptions C16_treasury_execute.
 Theorem C16_treasury_query : forall s, t_admin s <> None -> is_panic (tquery s) = false.
 Proof. exact tquery_no_panic. Qed.
 Print Assumptions C16_treasury_query.
+
+Theorem C16_treasury_migrate : forall s, is_panic (tmigrate s) = false.
+Proof. exact tmigrate_no_panic. Qed.
+Print Assumptions C16_treasury_migrate.
